@@ -149,6 +149,7 @@ func (p *predPlugin) UpdateContainerSchedulingState(*si.UpdateContainerSchedulin
 // ---------------------------------------------------------------- the stack
 
 type coreStack struct {
+	conf string // the configuration the stack was started with
 	cc   *scheduler.ClusterContext
 	part *scheduler.PartitionContext
 	h    *shimHandler
@@ -165,7 +166,7 @@ func newCoreStack(conf string) (*coreStack, error) {
 	if err != nil {
 		return nil, err
 	}
-	s := &coreStack{cc: cc, h: &shimHandler{}, pred: &predPlugin{deny: map[string]bool{}, asked: map[string]bool{}}}
+	s := &coreStack{conf: conf, cc: cc, h: &shimHandler{}, pred: &predPlugin{deny: map[string]bool{}, asked: map[string]bool{}}}
 	cc.VerifSetEventHandler(s.h)
 	plugins.RegisterSchedulerPlugin(s.pred)
 	s.part = cc.GetPartition(corePart)
